@@ -26,11 +26,12 @@ for D in "${DIRS[@]}"; do
   out=$(cargo test --workspace --no-fail-fast --offline 2>&1)
   demo_with=$(echo "$out" | grep -E "^test .* \.\.\. FAILED" | grep -v -F "$EXPECTED" | sort -u)
   # failures outside the demo test binary: run the suite list minus demo
-  cargo test --offline --test seeded_demo > /tmp/seedverify_demo.log 2>&1; rc_with=$?
+  FEAT=""; grep -q -- "--features prince" "$D/meta.json" && FEAT="--features prince"
+  cargo test --offline $FEAT --test seeded_demo > /tmp/seedverify_demo.log 2>&1; rc_with=$?
   demo_tests_failed=$(grep -E "^test .* FAILED" /tmp/seedverify_demo.log | sort -u)
   other=$(echo "$demo_with" | grep -v -F "$demo_tests_failed" | grep -v '^$')
   git checkout -q -- . 
-  cargo test --offline --test seeded_demo > /tmp/seedverify_demo2.log 2>&1; rc_without=$?
+  cargo test --offline $FEAT --test seeded_demo > /tmp/seedverify_demo2.log 2>&1; rc_without=$?
   rm -f tests/seeded_demo.rs
   ok=true; [ $rc_with -ne 0 ] || ok=false; [ $rc_without -eq 0 ] || ok=false; [ -z "$other" ] || ok=false
   python3 - "$D" "$rc_with" "$rc_without" "$other" "$ok" "$(git -C /repo rev-parse --short HEAD)" <<'PY'
